@@ -6,6 +6,7 @@ package harness
 // acknowledgements and edited packet fields.
 
 import (
+	"crypto/sha256"
 	"fmt"
 
 	packettypes "github.com/bianjieai/tibc-go/modules/tibc/core/04-packet/types"
@@ -780,6 +781,24 @@ func (g *PacketGen) RunC13() {
 			}
 		}
 	}
+	// a genuine proof with a rewritten leaf operation, next to the packet it then seems to prove
+	// (same key, data = sha256 of the committed data)
+	{
+		data, tok := g.randData()
+		seq := a.App.TIBCKeeper.PacketKeeper.GetNextSequenceSend(a.GetContext(), a.ChainName, r.ChainName)
+		p := packettypes.NewPacket(data, seq, a.ChainName, r.ChainName, "", "tibcmock")
+		if w.KSend(a, p, tok) == nil {
+			t := &tpkt{p: p, tok: tok, sentOn: a.ChainName, recvOn: map[string]bool{}, ackedOn: map[string]bool{}}
+			g.pkts = append(g.pkts, t)
+			h := w.Update(r, a)
+			d2 := sha256.Sum256(data)
+			pf := p
+			pf.Data = d2[:]
+			ps := ProofSpec{Kind: "leafop", Chain: a.ChainName, Height: h, Key: "commit", Src: p.SourceChain, Dst: p.DestinationChain, Seq: p.Sequence}
+			w.Recv(r, 1, pf, w.RawTok(pf.Data), ps, h)
+			g.stat("c13.recv-with-rewritten-leaf-op")
+		}
+	}
 	// a direct packet A -> R, delivered and acknowledged by R; the genuine acknowledgement is then
 	// shown to A with the port replaced by one no application is bound to: this the source does
 	// refuse (route lookup), and the acknowledgement can still be processed afterwards
@@ -800,6 +819,15 @@ func (g *PacketGen) RunC13() {
 					pe := p
 					pe.Port = "elsewhere"
 					aps := ProofSpec{Kind: "honest", Chain: r.ChainName, Height: h2, Key: "ack", Src: p.SourceChain, Dst: p.DestinationChain, Seq: p.Sequence}
+					// the genuine acknowledgement and proof next to a packet with other data (same
+					// source, destination, sequence): the source holds the commitment of another packet
+					pd := p
+					fdata, ftok := g.randData()
+					for string(fdata) == string(p.Data) {
+						fdata, ftok = g.randData()
+					}
+					pd.Data = fdata
+					w.Ack(a, 1, pd, ftok, ack, aps, h2)
 					w.Ack(a, 1, pe, tok, ack, aps, h2)
 					if res := w.Ack(a, 1, p, tok, ack, aps, h2); res.Code == 0 {
 						t.ackedOn[a.ChainName] = true
@@ -842,6 +870,7 @@ func (g *PacketGen) runCleanForeignLane(S, R, D *tibctesting.TestChain) {
 	if res.Code != 0 {
 		return
 	}
+	recvPs, recvH := ps, h
 	t.recvOn[D.ChainName] = true
 	t.ack, t.ackOn = writtenAck(res), D.ChainName
 	// R's own lane
@@ -882,5 +911,33 @@ func (g *PacketGen) runCleanForeignLane(S, R, D *tibctesting.TestChain) {
 		t.ackedOn[R.ChainName] = true
 	} else {
 		w.hit("C10", "acknowledgement-refused-for-good-on-the-relay-chain-after-a-clean-naming-its-lane "+pkeyStr(p))
+		return
 	}
+	// complete the relayed round trip (acknowledgement R -> S), then clean the relayed lane on
+	// every chain: S (source), R (proof from S), D (proof from R); afterwards the original receive
+	// message, replayed on D with its original proof, must be refused
+	h = w.Update(S, R)
+	aps = ProofSpec{Kind: "honest", Chain: R.ChainName, Height: h, Key: "ack", Src: p.SourceChain, Dst: p.DestinationChain, Seq: p.Sequence}
+	if w.Ack(S, 1, p, tok, t.ack, aps, h).Code != 0 {
+		return
+	}
+	t.ackedOn[S.ChainName] = true
+	cp := packettypes.NewCleanPacket(1, S.ChainName, D.ChainName, R.ChainName)
+	if w.Clean(S, 1, cp).Code != 0 {
+		return
+	}
+	h = w.Update(R, S)
+	cps := ProofSpec{Kind: "honest", Chain: S.ChainName, Height: h, Key: "clean", Src: S.ChainName, Dst: D.ChainName}
+	if w.RecvClean(R, 1, cp, cps, h).Code != 0 {
+		return
+	}
+	h = w.Update(D, R)
+	cps = ProofSpec{Kind: "honest", Chain: R.ChainName, Height: h, Key: "clean", Src: S.ChainName, Dst: D.ChainName}
+	rc := w.RecvClean(D, 1, cp, cps, h)
+	g.stat("c13.relayed-clean-on-destination." + ErrClass(rc.Codespace, rc.Code))
+	if rc.Code == 0 && w.cleanPoint(D, S.ChainName, D.ChainName) != 1 {
+		w.hit("C10", fmt.Sprintf("relayed-clean-accepted-on-the-destination-but-its-clean-point-for-%s/%s-did-not-move", S.ChainName, D.ChainName))
+	}
+	w.Recv(D, 1, p, tok, recvPs, recvH)
+	g.stat("c13.replay-after-relayed-clean")
 }
